@@ -122,7 +122,7 @@ def conv_cases(rng, tier, shard, nshards):
         if idx % nshards != shard: continue
         lo, hi = S.fmt_bounds(s, nw)
         for c in range(lo, hi + 1): cases.append({'f': [s, nw, nf], 'c': c, 'build': BUILDS[(idx + c) % len(BUILDS)]})
-    for _ in range((800 if tier == 'quick' else 20000) // nshards):
+    for _ in range((2400 if tier == 'quick' else 20000) // nshards):
         nw = rng.randint(9, 52); s = rng.random() < 0.5; nf = rng.randint(-1, nw + 1); lo, hi = S.fmt_bounds(s, nw)
         cases.append({'f': [s, nw, nf], 'c': rng.choice([lo, hi, -1 if s else 1, rng.randint(lo, hi)]), 'build': rng.choice(BUILDS)})
     return cases
@@ -166,7 +166,7 @@ def run_conv(cases, res):
 
 def shard(shard, nshards, rng, tier, extra):
     res = Result()
-    run_cmp(cmp_cases(rng, (4000 if tier == 'quick' else 100000) // nshards), res)
+    run_cmp(cmp_cases(rng, (12000 if tier == 'quick' else 100000) // nshards), res)
     run_conv(conv_cases(rng, tier, shard, nshards), res)
     res.exhaustive = True
     return res
